@@ -73,7 +73,7 @@ class HampelFilter(_SeriesToSeriesTransformer):
             Transformed time series(es).
         """
         self.check_is_fitted()
-        Z = check_series(Z)
+        Z = check_series(Z).copy()
 
         # multivariate
         if isinstance(Z, pd.DataFrame):
